@@ -311,7 +311,7 @@ func verifBytesEqual(a, b []byte) bool {
 // or lying by up to 14 bytes): no panic, no application data accepted, a ChangeCipherSpec takes effect only
 // when expected and well formed, errors are latched.
 //
-//verif:harness props=C08,C03,C09,C12 paths=200000 reach=accepted,ccs,error
+//verif:harness props=C08,C03,C09,C12,C19 paths=200000 reach=accepted,ccs,error
 func VerifHarness_C08_dtlcp_record_prehandshake() {
 	l1 := verifSplitInt("reclen1", 0, 3)
 	d := verifNondetBytes("rec1", 13+l1)
@@ -351,6 +351,7 @@ func VerifHarness_C08_dtlcp_record_prehandshake() {
 	if err == nil {
 		verifReach("accepted")
 		verifAssert("C12.early.dtlcpNoAppDataBeforeHandshake", len(c.readBuf) == 0)
+		verifAssert("C19.nodata.noApplicationDataBeforeFinished", len(c.readBuf) == 0)
 		if c.in.cipher != nil {
 			verifReach("ccs")
 			verifAssert("C03.ccs.dtlcpOnlyWhenExpected", expectCCS)
@@ -360,4 +361,36 @@ func VerifHarness_C08_dtlcp_record_prehandshake() {
 		verifAssert("C12.early.dtlcpNothingDelivered", len(c.readBuf) == 0)
 	}
 	verifAssert("C08.record.dtlcpNoCipherWithoutExpectedCCS", expectCCS || c.in.cipher == nil)
+}
+
+// C19 — reordering inside the client's second flight: the datagram carrying ChangeCipherSpec + Finished
+// overtakes the datagram carrying ClientKeyExchange. A datagram endpoint must not treat that as fatal (the
+// overtaken datagram, or its retransmission, is still to come). Today the server latches unexpected_message
+// (known finding F11).
+//
+//verif:harness props=C19 paths=200 reach=read
+func VerifHarness_C19_reordered_flight() {
+	ccs := []byte{byte(recordTypeChangeCipherSpec), 1, 1, 0, 0, 0, 0, 0, 0, 0, 3, 0, 1, 1}
+	fin := verifNondetBytes("finishedRecord", 13+4)
+	fin[0], fin[1], fin[2], fin[3], fin[4] = byte(recordTypeHandshake), 1, 1, 0, 1
+	fin[11], fin[12] = 0, 4
+	d := append(append([]byte(nil), ccs...), fin...)
+	t := &verifPConn{in: [][]byte{d}}
+	c := &Conn{pconn: t, remoteAddr: verifAddr{}, config: &Config{Rand: verifRandSrc{}}}
+	c.vers, c.haveVers = VersionTLCP, true
+	c.hsState.Store(int32(stateWaiting))
+	c.replayWindow = newReplayWindow(64)
+	// the server is waiting for ClientKeyExchange: keys are not established yet, nothing is buffered
+	err := c.readRecordOrCCS(false)
+	verifReach("read")
+	verifTag("reordered", 1)
+	verifAssert("C19.reorder.overtakingCCSIsNotFatal", c.in.err == nil || isTimeout(err))
+}
+
+func isTimeout(err error) bool {
+	if err == nil {
+		return false
+	}
+	_, ok := err.(verifTimeout)
+	return ok
 }
